@@ -12,7 +12,7 @@ open Nuts Nuts.C10
 theorem callback_ok_inv (c : Cfg) (s s' : Store) (tx : Tx) (pd : Option NDoc)
     (h : callback c s tx pd = .ok s') :
     checkTransactionIntegrity tx = .ok () ∧
-    ∃ d, pd = some d ∧ validate c.thumb c.validators d = .ok () ∧
+    ∃ d, pd = some d ∧ validate c.thumb c.vmNilJwkErr c.validators d = .ok () ∧
       ((∃ k, tx.embedded = some k ∧ handleCreate c s tx k d = .ok s') ∨
        (tx.embedded = none ∧ handleUpdate c s tx d = .ok s')) := by
   unfold callback at h
@@ -82,8 +82,8 @@ theorem verifySig_kid (n : Nat) (s : Store) (tx : Tx) (he : tx.embedded = none)
 
 /-! ### findKeyByThumbprint -/
 
-theorem findKey_true (thumb : Key → String) (t : String) :
-    ∀ l : List Entry, findKey thumb t l = .ok true →
+theorem findKey_true (thumb : Key → String) (ne : Bool) (t : String) :
+    ∀ l : List Entry, findKey thumb ne t l = .ok true →
       ∃ e ∈ l, ∃ k, KeyInfo.ofBody e.body = .key k ∧ thumb k = t := by
   intro l
   induction l with
@@ -93,7 +93,7 @@ theorem findKey_true (thumb : Key → String) (t : String) :
     unfold findKey at h
     split at h
     · cases h
-    · cases h
+    · split at h <;> cases h
     · rename_i k hk
       split at h
       · rename_i ht
@@ -102,10 +102,10 @@ theorem findKey_true (thumb : Key → String) (t : String) :
         exact ⟨e', List.mem_cons_of_mem _ he', k', hk', ht'⟩
 
 /-- conversely: when no listed key has the thumbprint the search does not succeed -/
-theorem findKey_not_true (thumb : Key → String) (t : String) :
-    ∀ l : List Entry, (∀ e ∈ l, ∀ k, KeyInfo.ofBody e.body = .key k → thumb k ≠ t) → findKey thumb t l ≠ .ok true := by
+theorem findKey_not_true (thumb : Key → String) (ne : Bool) (t : String) :
+    ∀ l : List Entry, (∀ e ∈ l, ∀ k, KeyInfo.ofBody e.body = .key k → thumb k ≠ t) → findKey thumb ne t l ≠ .ok true := by
   intro l hno h
-  obtain ⟨e, he, k, hk, ht⟩ := findKey_true thumb t l h
+  obtain ⟨e, he, k, hk, ht⟩ := findKey_true thumb ne t l h
   exact hno e he k hk ht
 
 /-! ### resolveControllers -/
@@ -455,7 +455,7 @@ theorem mem_capInvOf (cs : List Doc) (e : Entry) (h : e ∈ capInvOf cs) : ∃ d
 theorem handleUpdate_ok_inv (c : Cfg) (s s' : Store) (tx : Tx) (d : NDoc) (h : handleUpdate c s tx d = .ok s') :
     ∃ cur ctrls k, currentVersion s d.id tx.prevs = .ok cur ∧ ambControllers c s cur tx = .ok ctrls ∧
       resolvePublicKey c.maxDepth s tx.kid tx.prevs = .ok k ∧
-      findKey c.thumb (c.thumb k) (capInvOf ctrls) = .ok true ∧ add c.store s (eventOf tx d) = .ok s' := by
+      findKey c.thumb c.findKeyNilJwkErr (c.thumb k) (capInvOf ctrls) = .ok true ∧ add c.store s (eventOf tx d) = .ok s' := by
   unfold handleUpdate at h
   split at h
   · cases h
@@ -498,9 +498,9 @@ def VMsOk (thumb : Key → String) (owner : String) (vs : List NVM) (known : Lis
   (∀ v ∈ vs, v.frag ≠ "" ∧ v.pfx = owner ∧ ∃ k, v.key = .key k ∧ thumb k = v.frag) ∧
   (vs.map (·.id)).Nodup ∧ ∀ v ∈ vs, v.id ∉ known
 
-theorem validateVMs_ok_iff (thumb : Key → String) (owner : String) :
+theorem validateVMs_ok_iff (thumb : Key → String) (ne : Bool) (owner : String) :
     ∀ (vs : List NVM) (known : List String),
-      validateVMs thumb allOn owner vs known = .ok () ↔ VMsOk thumb owner vs known := by
+      validateVMs thumb ne allOn owner vs known = .ok () ↔ VMsOk thumb owner vs known := by
   intro vs
   induction vs with
   | nil => intro known; simp [validateVMs, VMsOk]
@@ -531,7 +531,7 @@ theorem validateVMs_ok_iff (thumb : Key → String) (owner : String) :
       | none =>
         simp only
         constructor
-        · intro h; cases h
+        · intro h; split at h <;> cases h
         · intro h; obtain ⟨k, hk, _⟩ := (h.1 v List.mem_cons_self).2.2; rw [hkey] at hk; cases hk
       | key k =>
         simp only
@@ -726,11 +726,11 @@ def WellFormedNuts (thumb : Key → String) (d : NDoc) : Prop :=
   (∀ v ∈ d.vms, v.frag ≠ "" ∧ v.pfx = d.id ∧ ∃ k, v.key = .key k ∧ thumb k = v.frag) ∧ (d.vms.map (·.id)).Nodup ∧
   (∀ s ∈ d.services, s.frag ≠ "" ∧ s.pfx = d.id) ∧ (d.services.map (·.id)).Nodup ∧ (d.services.map (·.type)).Nodup
 
-theorem validate_ok_iff (thumb : Key → String) (d : NDoc) :
-    validate thumb [.w3c, .nutsVM, .nutsService] d = .ok () ↔ WellFormedNuts thumb d := by
+theorem validate_ok_iff (thumb : Key → String) (ne : Bool) (d : NDoc) :
+    validate thumb ne [.w3c, .nutsVM, .nutsService] d = .ok () ↔ WellFormedNuts thumb d := by
   unfold validate validateList validateList validateList validateList runValidator
   have hw := validateW3C_ok_iff d
-  have hv := validateVMs_ok_iff thumb d.id d.vms []
+  have hv := validateVMs_ok_iff thumb ne d.id d.vms []
   have hs := validateSvcs_ok_iff d.id d.services [] []
   unfold allOn at hw hv hs
   unfold WellFormedNuts
@@ -744,7 +744,7 @@ theorem validate_ok_iff (thumb : Key → String) (d : NDoc) :
   | ok u =>
     simp only
     have hw' : W3COk d := hw.mp (by rw [h1])
-    cases h2 : validateVMs thumb (fun _ => true) d.id d.vms [] with
+    cases h2 : validateVMs thumb ne (fun _ => true) d.id d.vms [] with
     | err e => simp only; rw [h2] at hv; constructor
                · intro h; cases h
                · intro h; exact absurd (hv.mpr ⟨h.2.1, h.2.2.1, by simp⟩) (by simp)
